@@ -9,13 +9,14 @@
 """
 import json
 import os
+import random
 
 from lib import tlc as tlcmod
 
 
-def routing_cfg(n, maxlinks, forest, invs, props=("NbrsMonotone",)):
+def routing_cfg(n, maxlinks, forest, invs, props=("NbrsMonotone",), single=False):
     lines = ["SPECIFICATION Spec", "CONSTANTS", f" N = {n}", f" MaxLinks = {maxlinks}",
-             f" ForestOnly = {'TRUE' if forest else 'FALSE'}"]
+             f" ForestOnly = {'TRUE' if forest else 'FALSE'}", f" SinglePass = {'TRUE' if single else 'FALSE'}"]
     lines += [f"INVARIANT {i}" for i in invs]
     lines += [f"PROPERTY {p}" for p in props]
     lines.append("CHECK_DEADLOCK FALSE")
@@ -23,7 +24,7 @@ def routing_cfg(n, maxlinks, forest, invs, props=("NbrsMonotone",)):
 
 
 def trace_cfg(n):
-    return ("INIT TInit\nNEXT TNext\nCONSTANTS\n N = %d\n MaxLinks = 0\n ForestOnly = FALSE\n"
+    return ("INIT TInit\nNEXT TNext\nCONSTANTS\n N = %d\n MaxLinks = 0\n ForestOnly = FALSE\n SinglePass = FALSE\n"
             "INVARIANT Report\nCHECK_DEADLOCK FALSE\n" % n)
 
 
@@ -103,6 +104,7 @@ def conformance(ctx, n, hists, label, forest):
 
 def run(ctx):
     thorough = ctx.tier == "thorough"
+    rnd = random.Random(ctx.seed)
     ctx.rule = ("TLC enumerates every history of Link actions (all orders and orientations, repeated links "
                 "included) within the stated constants; each history is replayed on real Node objects; a case is "
                 "distinct/non-trivial when its projected (neighbour-order, route table) state differs from all "
@@ -115,28 +117,45 @@ def run(ctx):
                                                         "StepsExact", "IsForest"]))
         hists = [[list(l) for l in st["hist"]] for st in r.dump]
         conformance(ctx, n, hists, f"forests-N{n}", True)
-    # ---- 2. general graphs: Valid must hold; Shortest is checked and candidates replayed --------
-    graph_cfgs = [(4, 4)] if not thorough else [(4, 6), (5, 6)]
+    # ---- 2. general graphs: the model of the repaired Node (sweeps repeated until stable) satisfies Shortest ---------------
+    graph_cfgs = [(4, 4)] if not thorough else [(4, 6), (5, 5)]
     for n, ml in graph_cfgs:
-        r = ctx.tlc("Routing", label=f"graphs N={n} MaxLinks={ml} (valid)", workers=16, dump=True,
-                    dump_only=["hist"], cfg_text=routing_cfg(n, ml, False, ["Symmetric", "Valid", "Unconnected"]))
+        r = ctx.tlc("Routing", label=f"graphs N={n} MaxLinks={ml} (valid, shortest, sweeps bounded)", workers=16, dump=True,
+                    dump_only=["hist"], timeout=5000,
+                    cfg_text=routing_cfg(n, ml, False, ["Symmetric", "Valid", "Unconnected", "Shortest", "StepsExact"],
+                                         props=("NbrsMonotone", "SweepsBounded")))
         hists = [[list(l) for l in st["hist"]] for st in r.dump]
+        if len(hists) > 400000:
+            hists = rnd.sample(hists, 400000)
         conformance(ctx, n, hists, f"graphs-N{n}", False)
-    # candidate generation for Shortest on cyclic graphs (smallest counterexample needs a 5-ring)
-    r = ctx.tlc("Routing", label="graphs N=5 MaxLinks=5 (shortest, candidate search)", workers=16, expect_ok=False,
-                cfg_text=routing_cfg(5, 5, False, ["Shortest"], props=()))
+    # the named deviation SinglePass (the code before the repair 72117f8): TLC finds the smallest history on which one sweep leaves
+    # a longer route (a 5-ring); that history, the two canonical 5-rings and random cyclic histories are replayed on the real Node
+    r = ctx.tlc("Routing", label="graphs N=5 MaxLinks=5, single sweep (deviation): candidate search for Shortest", workers=16,
+                expect_ok=False, cfg_text=routing_cfg(5, 5, False, ["Shortest"], props=(), single=True))
+    cands = [[[2, 1], [3, 1], [4, 2], [5, 3], [5, 4]], [[4, 1], [2, 1], [3, 2], [5, 3], [5, 4]]]
     if r.violated == "Shortest" and r.counterexample:
         hist = [list(l) for l in r.counterexample[-1][1]["hist"]]
-        ctx.extra["shortest_candidate_from_model"] = hist
-        conformance(ctx, 5, [hist], "shortest-candidate", False)
+        ctx.extra["shortest_candidate_from_single_sweep_model"] = hist
+        cands.append(hist)
     else:
-        ctx.extra["shortest_candidate_from_model"] = None
-        # model says shortest holds for all 5-link graphs on 5 nodes: replay the 5-rings anyway
-        rings = [[[2, 1], [3, 1], [4, 2], [5, 3], [5, 4]], [[4, 1], [2, 1], [3, 2], [5, 3], [5, 4]]]
-        conformance(ctx, 5, rings, "shortest-rings", False)
+        ctx.extra["shortest_candidate_from_single_sweep_model"] = None
+    conformance(ctx, 5, cands, "shortest-candidates", False)
+    for n in ((6, 7) if not thorough else (6, 7, 8)):
+        hs = []
+        for _ in range(300 if not thorough else 3000):
+            nl = rnd.randint(n, n + 4)
+            h = []
+            for _k in range(nl):
+                a, b = rnd.sample(range(1, n + 1), 2)
+                h.append([a, b])
+            hs.append(h)
+        conformance(ctx, n, hs, f"random-cyclic-N{n}", False)
     # ---- 3. registries ---------------------------------------------------------------------------
     from checks import c20_registry
     c20_registry.run(ctx)
+    # ---- the repository's own test-suite, trace-validated (SuiteTrace.tla / RoutingTrace.tla) -----------------------------
+    from checks import suite
+    suite.run(ctx, "C20", "links")
     ctx.exhaustive = True
     ctx.assumptions += [
         "Node names are unique strings (as in every built-in graph)",
